@@ -114,3 +114,16 @@ Fixpoint blank_runs_ok (N c : Z) (ls : list line) : bool :=
       else if blank l then (c + 1 <=? N)%Z && blank_runs_ok N (c + 1)%Z ls'
       else blank_runs_ok N 0%Z ls'
   end.
+
+(* What LimitEmptyLines(N) is documented to do, written independently of its code: of every maximal run of consecutive
+   empty lines the first N are kept unaltered, the others are elided (nothing is written for them); every other line is
+   kept unaltered.  c = number of empty lines seen in the current run. *)
+Fixpoint limit_spec (N c : Z) (ls : list line) : list line :=
+  match ls with
+  | [] => []
+  | l :: r =>
+      match fst l with
+      | [] => (if (c + 1 <=? N)%Z then l else ([], [])) :: limit_spec N (c + 1)%Z r
+      | _ :: _ => l :: limit_spec N 0%Z r
+      end
+  end.
